@@ -38,12 +38,32 @@ def run(repo: Repo, chk: Check, thorough: bool = False) -> None:
     po = [n for n in url.walk() if isinstance(n, ast.Assign) and norm(n.value) == 'self.page_object']
     pvar = po[0].targets[0].id if po and isinstance(po[0].targets[0], ast.Name) else None
     fstr = [n for n in url.walk() if isinstance(n, ast.JoinedStr)]
-    page_fs = [j for j in fstr if any(isinstance(v, ast.Constant) and '.html' in str(v.value) for v in j.values)]
-    ok = pvar is not None and bool(page_fs) and all(
-        all(isinstance(v, ast.Constant) or (isinstance(v, ast.FormattedValue) and norm(v.value) == f'quote({pvar}.fullName())') for v in j.values)
-        for j in page_fs)
+
+    def leaves(e: ast.AST) -> List[ast.AST]:
+        """Leaves of a string-building expression (f-string parts, + operands)."""
+        if isinstance(e, ast.JoinedStr):
+            out: List[ast.AST] = []
+            for v in e.values:
+                out.extend(leaves(v.value) if isinstance(v, ast.FormattedValue) else [v])
+            return out
+        if isinstance(e, ast.BinOp) and isinstance(e.op, ast.Add):
+            return leaves(e.left) + leaves(e.right)
+        return [e]
+    # every value assigned to the page-url variable (other than the index.html constant) is built from constants and
+    # quote(page_object.fullName()) only, and ends with .html
+    pu_assigns = [n for n in url.walk() if isinstance(n, ast.Assign) and isinstance(n.targets[0], ast.Name) and n.targets[0].id == 'page_url']
+    built = [n.value for n in pu_assigns if not (isinstance(n.value, ast.Constant) and n.value.value == 'index.html')]
+    ok = pvar is not None and bool(built)
+    for b in built:
+        ls = leaves(b)
+        if not all(isinstance(x, ast.Constant) or norm(x) == f'quote({pvar}.fullName())' for x in ls):
+            ok = False
+        if not (ls and isinstance(ls[-1], ast.Constant) and str(ls[-1].value).endswith('.html')):
+            ok = False
+        if not any(norm(x) == f'quote({pvar}.fullName())' for x in ls):
+            ok = False
     chk.ob('R11.1', f'{DOC}.url :: page part derives from page_object only', ok,
-           f"f'{{quote({pvar}.fullName())}}.html'" if ok else 'the page file name is no longer quote(page_object.fullName()) + ".html"', url.loc)
+           f"quote({pvar}.fullName()) + '.html'" if ok else 'the page file name is no longer quote(page_object.fullName()) + ".html"', url.loc)
     # the single-root special case compares the qualified name
     cmp_ = [n for n in url.walk() if isinstance(n, ast.Compare) and 'root_names' in norm(n)]
     ok = bool(cmp_) and all(isinstance(c.comparators[0], ast.List) and len(c.comparators[0].elts) == 1 and
